@@ -611,6 +611,58 @@ def generate(kin_src, cons_src):
     return "\n".join(L) + "\n"
 
 
+def generate_cons_obj(cons_src):
+    """`Constraints::new` and `Constraints::update_range` as functions on the whole object: which expression each field
+    of the result is taken from (the per-joint arithmetic of compute_centers is translated separately)"""
+    out = []
+    def side(x):
+        x = x.strip()
+        if x in ("from", "to"):
+            return x + "_"
+        if x in ("self.from", "self.to"):
+            return "self." + ("from_" if x.endswith("from") else "to")
+        raise TranslateError("unsupported argument of compute_centers: " + x)
+    # ---- new
+    body, _ = fn_body(cons_src, "new")
+    flat = " ".join(re.sub(r"//[^\n]*", "", body).split())
+    m = re.match(r"let \(centers, tolerances\) = Self::compute_centers\(([\w.]+), ([\w.]+)\); Constraints \{ from: (\w+), to: (\w+), "
+                 r"centers: (\w+), tolerances: (\w+), sorting_weight: (\w+),? \}$", flat)
+    if not m:
+        raise TranslateError("Constraints::new no longer has the shape `compute_centers(..); Constraints { .. }`")
+    a, b, ff, tt, cc, tl, sw = m.groups()
+    val = {"from": "from_", "to": "to_", "centers": "ct.1", "tolerances": "ct.2", "sorting_weight": "w"}
+    for x in (ff, tt, cc, tl, sw):
+        if x not in val:
+            raise TranslateError("Constraints::new: unknown field source " + x)
+    out.append("/-- `Constraints::new` -/\ndef newSrc (from_ to_ : J6 R) (w : R) : Constraints R :=\n"
+               f"  let ct := centersOf {side(a)} {side(b)};\n"
+               f"  {{ from_ := {val[ff]}, to := {val[tt]}, centers := {val[cc]}, tolerances := {val[tl]}, sortingWeight := {val[sw]} }}\n")
+    # ---- update_range
+    body, _ = fn_body(cons_src, "update_range")
+    flat = " ".join(re.sub(r"//[^\n]*", "", body).split())
+    m = re.match(r"let \(centers, tolerances\) = Self::compute_centers\(([\w.]+), ([\w.]+)\); (.*)$", flat)
+    if not m:
+        raise TranslateError("update_range no longer starts with `let (centers, tolerances) = Self::compute_centers(..)`")
+    a, b, rest = m.groups()
+    fields = {"from": "self.from_", "to": "self.to", "centers": "self.centers", "tolerances": "self.tolerances", "sorting_weight": "self.sortingWeight"}
+    val2 = {"from": "from_", "to": "to_", "centers": "ct.1", "tolerances": "ct.2"}
+    for st in [x.strip() for x in rest.split(";") if x.strip()]:
+        mm = re.match(r"self\.(\w+) = (\w+)$", st)
+        if not mm or mm.group(1) not in fields or mm.group(2) not in val2:
+            raise TranslateError("update_range: unsupported statement `" + st + "`")
+        fields[mm.group(1)] = val2[mm.group(2)]
+    out.append("/-- `Constraints::update_range` (the object after the call) -/\ndef updateRangeSrc (self : Constraints R) (from_ to_ : J6 R) : Constraints R :=\n"
+               f"  let ct := centersOf {side(a)} {side(b)};\n"
+               f"  {{ from_ := {fields['from']}, to := {fields['to']}, centers := {fields['centers']}, tolerances := {fields['tolerances']}, "
+               f"sortingWeight := {fields['sorting_weight']} }}\n")
+    return ("/- GENERATED by tools/rs2lean_ctl.py from /repo/src/constraints.rs on every run. Do not edit. -/\n"
+            "import OpwVerif.Kin\nset_option linter.unusedVariables false\nnamespace Opw.SrcCons\nopen Opw\nvariable {R : Type} [OpwNum R]\n\n"
+            "/-- `compute_centers` on whole joint arrays: `(centers, tolerances)`, joint by joint through the model's `centerTol` -/\n"
+            "def centersOf (f t : J6 R) : J6 R × J6 R :=\n"
+            "  (J6.zipWith (fun a b => (centerTol a b).1) f t, J6.zipWith (fun a b => (centerTol a b).2) f t)\n\n"
+            + "\n".join(out) + "\nend Opw.SrcCons\n")
+
+
 def generate_coll(coll_src):
     """`CollisionTask::collides`: the decision logic with the three parry3d queries as named oracles"""
     body, _ = fn_body(coll_src, "collides")
@@ -646,7 +698,9 @@ def generate_coll(coll_src):
 if __name__ == "__main__":
     k = open("/repo/src/kinematics_impl.rs").read()
     c = open("/repo/src/constraints.rs").read()
-    if len(sys.argv) > 1 and sys.argv[1] == "coll":
+    if len(sys.argv) > 1 and sys.argv[1] == "cons":
+        sys.stdout.write(generate_cons_obj(c))
+    elif len(sys.argv) > 1 and sys.argv[1] == "coll":
         sys.stdout.write(generate_coll(open("/repo/src/collisions.rs").read()))
     else:
         sys.stdout.write(generate(k, c))
